@@ -1,7 +1,7 @@
 """C18 — mathvariant maps characters to the right Unicode math letters.
 Space (complete): every mapped mathvariant value + normal + unknown values x every key of the
 library's shift table (Latin, digits, Greek and variant symbols, digammas) + outside characters x
-token kinds mi/mn/mo/mtext, single-character tokens and 4-character windows.
+token kinds mi/mn/mo/mtext/ms, single-character tokens and 4-character windows.
 Oracle: the Unicode Character Database (python unicodedata), not the library's tables."""
 import re, unicodedata as ud
 from common import Run, norm_ids, is_ok, val, short
@@ -118,7 +118,7 @@ def out_text(canon):
 def cases():
     dom = LATIN + DIGITS + GREEK + OUTSIDE
     for style in list(STYLES) + OTHER_STYLES:
-        for kind in ("mi", "mn", "mo", "mtext"):
+        for kind in ("mi", "mn", "mo", "mtext", "ms"):
             for ch in dom:
                 yield (style, kind, ch)
             for i in range(0, len(dom) - 3, 4):
